@@ -1201,6 +1201,8 @@ def run(repo: Repo, rep):
     from .c17 import r1_roundtrip, r5_point_data  # a partially evaluated expression denotes the same set: every constructor argument (pivot, flags, sub-domains) must be carried over; a fixed factor becomes the Point with its coordinates in space order
     r1_roundtrip(repo, rep)
     r5_point_data(repo, rep)
+    from .c17 import r6_derived_functions  # membership of an evaluated rotated domain needs a rotation MATRIX: the angle wrapper must survive partial evaluation
+    r6_derived_functions(repo, rep)
     from .c12 import r6_empty_and_slices  # `points[:, list(space.keys())]` relies on Space[[names]] listing the names in the requested order
     r6_empty_and_slices(repo, rep)
 
